@@ -159,7 +159,8 @@ PROPS = {
              "{istringstream, ifstream, unopened ifstream, ifstream on a missing file} x {one-byte items, string+items}; after the n-th byte every operation must throw "
              "CdnsDecoderEnd (unreadable streams: any std::exception, never a value). (b) file level: generated valid files (padded so that |f|, a block end or the first block "
              "falls within +-3 of a multiple of 65535 in 3/4 of the cases), prefix lengths exhaustive within +-3 of every block boundary / window multiple / 0 / |f| plus "
-             "sampled positions; the reader must return exactly the blocks wholly contained (identical dump to the full file) and then throw CdnsDecoderEnd. "
+             "sampled positions; the reader must return exactly the blocks wholly contained (identical dump to the full file) and then throw CdnsDecoderEnd; a third of the prefixes "
+             "are read through a copy of the reader object made after 0..2 blocks; variants with a definite-length block array ending in a 65-140 KB string. "
              "Non-trivial: n==0 or n within 40 of a window multiple (a); 0<n<|f| near a window multiple or block boundary or file with >=2 blocks (b).",
         level_text="exhaustive over the stated stream lengths/operations/stream kinds; generated files x exhaustive boundary prefixes; block offsets from an independent parse",
         level_note="CdnsDecoder::BUFFER_SIZE taken from the header; CdnsDecoderEnd is the library's documented end-of-input type",
@@ -218,7 +219,8 @@ PROPS = {
 
     "C11": dict(
         rule="(a) state machine over the nine tables of a CdnsBlock: add (pool values to force repeats, fresh values from large domains to force growth/rehash, neighbours differing in "
-             "exactly one member, always separately built objects), find, get, clear, periodic full verification, up to ~300 ops; reference = map value->index. Oracle: equal value -> same "
+             "exactly one member, always separately built objects), find, get, clear, snapshot / rollback by block assignment (copy and move; the value handled last re-added first), hash-colliding value pairs found by a birthday search, "
+             "one case in 160 starting with a table of 40000..72000 (thorough 140000) entries, periodic full verification, up to ~300 ops; reference = map value->index. Oracle: equal value -> same "
              "index and no growth, new value -> unused index, get(i) keeps denoting the value stored at i until clear, find agrees, a==b => hash(a)==hash(b). (b) record streams through the "
              "exporter with tiny max_block_items: in the independent parse of every block no two equal entries in any table, every entry reachable from that block's own items, every "
              "index in range. Non-trivial: >=1 dedup hit and (>=16 distinct entries or a clear) (a); >=2 flushed blocks (b).",
@@ -248,10 +250,11 @@ PROPS = {
         ],
     ),
     "C19": dict(
-        rule="source block built by generated add_* / generic record adds, or returned by CdnsReader::read_block and assigned; second block obtained by copy ctor, move ctor, copy/move assignment "
+        rule="source block (default or generated block parameters) built by generated add_* / generic record adds, or returned by CdnsReader::read_block and assigned (onto a fresh or an already used "
+             "object; half of the files carry duplicate table entries, as a non-de-duplicating RFC 8618 encoder writes them); second block obtained by copy ctor, move ctor, copy/move assignment "
              "(onto empty and non-empty), CdnsBlockRead variants; then the source is left, modified, cleared or destroyed (heap allocated: ASan sees stale references) and a generated sequence of "
              "re-adds of existing values / new values / gets / serialisation runs on the copy. Oracle: a block rebuilt from scratch with the same content returns the same indices and serialises to the "
-             "same independent interpretation; the copy is unaffected by the source and vice versa. Non-trivial: source destroyed or cleared before an add of an already-present value on the copy.",
+             "same independent interpretation and the same 'block full' flags; tables and generic records of reader-derived copies equal the independent interpretation of the file; the copy is unaffected by the source and vice versa. Non-trivial: source destroyed or cleared before an add of an already-present value on the copy.",
         level_text="model-based sequences with a rebuilt-from-scratch reference block, under AddressSanitizer",
         level_note="serialisations are compared through the independent parser (AEC order is unspecified)",
         technique="property-based testing: stateful differential testing against a rebuilt reference, ASan as memory oracle",
@@ -262,7 +265,8 @@ PROPS = {
     "C14": dict(
         rule="generated plans of write(chunk)/rotate_output on GzipCborOutputWriter and XzCborOutputWriter for file-name and descriptor targets: chunk sizes 0, 1, 2047/2048/2049, 65535/65536, "
              "random up to 700 KiB (thorough 3 MiB); data classes zeros / repeating text / incompressible / mixed; plus enumerated large chunks (1, 4, 6.5, 9 MiB; thorough up to 48 MiB) x gzip/xz x name/fd "
-             "x incompressible/mixed, each followed by a rotation; plus end-to-end exporter histories with gzip/xz forced. Oracle: the same plan on the plain writer; every compressed output must be one "
+             "x incompressible/mixed, each followed by a rotation; rotations first attempted onto a destination that cannot be opened (must be refused by both writers) and, for named outputs, rotations "
+             "onto the name that is already open (the finished file is replaced); plus end-to-end exporter histories with gzip/xz forced. Oracle: the same plan on the plain writer; every compressed output must be one "
              "complete stream (strict independent zlib/liblzma decoding, nothing after it), carry the .gz/.xz suffix, and decompress byte for byte to the plain output. Non-trivial: bytes > 0 and "
              "(>=2 writes | rotation | chunk >= 64 KiB).",
         level_text="differential against the plain writer over generated write plans, enumerated large-chunk classes, independent decompression",
@@ -279,7 +283,7 @@ PROPS = {
     "C15": dict(
         level="fault_enumeration",
         rule="generated scenarios on named outputs (plain/gzip/xz; 1..4 outputs; ordinary names, names whose last path component is 251..255 characters long, names whose '.part' path is occupied by a "
-             "directory - the library refuses the latter two; record sizes 10 B..30 KB so that some outputs need many OS writes and some none before close; rotation onto fresh names, "
+             "directory - the library refuses the latter two -, names whose '.part' file (96 KB) is left over from an earlier killed run; destruction during stack unwinding; record sizes 10 B..30 KB so that some outputs need many OS writes and some none before close; rotation onto fresh names, "
              "onto names holding a complete older file, onto names used earlier in the scenario; destruction with and without buffered data) x EVERY crash point k = 1..N, where the process is killed "
              "(_exit) immediately before its k-th write/writev/rename (interposed in the harness, counted by a fault-free reference run in a forked child). Oracle: every directory entry not ending "
              "in .part is byte-identical to the pre-existing file of that name or to a completed output of that name (snapshots of the reference run, each validated as a complete stream + valid document). "
@@ -309,10 +313,10 @@ PROPS = {
     ),
 
     "C20": dict(
-        rule="T in {2,3,4,5,8,12,16} threads, each assigned 1..3 generated workloads: export generated records to its own output (name or fd, none/gzip/xz, with rotations), read a pre-generated "
-             "file back and render preamble/blocks/records with string(), build and copy blocks, Timestamp arithmetic; in 1/3 of the cases all threads run the same workload class. All workloads are "
-             "generated and run once sequentially in the main thread, then run concurrently from threads started on a barrier. Oracle: no ThreadSanitizer report (library and harness built with "
-             "-fsanitize=thread, halt_on_error) and every result (output bytes hash, rendered text hash, indices) identical to the sequential run. Non-trivial: >=2 threads were simultaneously inside "
+        rule="T in {2,3,4,5,8,12,16} threads, each assigned 1..4 generated workloads: export generated records to its own output (name or fd, none/gzip/xz, with rotations, refused rotations, exporters abandoned after a refusal), "
+             "read a pre-generated file (as written, re-encoded with unknown members, truncated or damaged) back and render preamble/blocks/records with string(), build and copy blocks, Timestamp arithmetic; in 1/3 of the cases all threads run the same workload class. All workloads are "
+             "generated in the main thread, run once each alone in a thread of its own (reference), then run concurrently from threads started on a barrier. Oracle: no ThreadSanitizer report (library and harness built with "
+             "-fsanitize=thread, halt_on_error) and every result (output bytes hash, rendered text hash, indices) identical to the isolated run. Non-trivial: >=2 threads were simultaneously inside "
              "the same workload class (atomic overlap counters).",
         level_text="generated concurrent workloads under ThreadSanitizer's happens-before detection plus differential against sequential execution",
         level_note="only executed code can race; uninstrumented zlib/liblzma internals are invisible; the claim is 'no shared mutable state is touched by the generated workloads', not schedule completeness",
@@ -327,11 +331,14 @@ PROPS = {
         rule="(1) valid file from the exporter -> generated plan of 1..4 structure-aware edits on the CBOR tree (declared length/count -> boundary values up to 2^64-1, integers -> boundaries, "
              "index members just past their table, major type swapped, additional info 28..31, subtree replaced by a nesting chain of depth up to 2000 (thorough 200000; decoder streams up to 10^6), subtree "
              "duplicated/deleted/moved, unknown members, malformed domain names / addresses of length 0..20, ticks-per-second / earliest-time / offsets -> 0, 2^63, 2^64-1, huge declared string length / array count "
-             "on short content) + truncation / byte flips -> CdnsReader, every block, read_generic_qr/aec/mm, string() of preamble, blocks, items, table entries and generic records, block copies. "
-             "(2) CdnsDecoder operation programs (12 operations) over mutated files, generated item streams with byte edits, nesting chains and arbitrary CBOR-looking bytes. (3) the five command line tools as "
+             "on short content, huge max-block-items together with huge item counts, tick rate together with time offsets at boundary values, unknown members whose value declares 2^63..2^64-1 bytes / elements "
+             "incl. the lengths that wrap around 2^64 to the item itself; a fifth of the seed files span 2-3 decoder windows) + truncation / byte flips -> CdnsReader, every block, read_generic_qr/aec/mm, string() of preamble, blocks, items, table entries and generic records, block copies; the same bytes through the lower-level API (own CdnsDecoder, ONE CdnsBlockRead object reused via read() for all blocks "
+             "and drained through the accessors also after a failed read). (2) CdnsDecoder operation programs (12 operations) over mutated files, generated item streams with byte edits, nesting chains and arbitrary CBOR-looking bytes. (3) the five command line tools as "
              "real subprocesses on mutated files (cdns-merge also with a second, valid input). (4) libFuzzer campaigns on the reader and the decoder from an empty and from a generator-made corpus. "
              "Oracle: no ASan/UBSan/_GLIBCXX_ASSERTIONS report, no stack overflow on the default 8 MiB stack, no single allocation above 64 MiB (inputs <= 1 MiB), only std::exception-derived errors, tools "
-             "exit with status 0/1 and no signal. Non-trivial: input differs from its seed and processing got past the file header, or the decoder program executed >= 3 operations; fuzzing: inputs kept by "
+             "exit with status 0/1 and no signal; garbage differential: reader / decoder constructed in storage pre-filled with 0x00 and with 0xA5, fresh heap blocks (replaced operator new) and the stack below "
+             "the call filled with the same pattern - everything observable must be identical; termination: a case (input <= 1 MiB) that runs longer than 120 s, or a tool that does not exit within 120 s, "
+             "three times in isolation, is a violation. Non-trivial: input differs from its seed and processing got past the file header, or the decoder program executed >= 3 operations; fuzzing: inputs kept by "
              "libFuzzer for new coverage.",
         level_text="structure-aware mutation search plus coverage-guided fuzzing under ASan+UBSan with an allocation cap; tools run as subprocesses",
         level_note="time/memory proportionality is checked through the allocation cap, the stack limit and a conservative hang rule (timeouts are inconclusive); uninitialised reads only via semantic oracles",
